@@ -1,4 +1,5 @@
 use core::sync::atomic::AtomicU64;
+use core::marker::PhantomData;
 use core::{fmt, slice};
 
 use bitfield_struct::bitfield;
@@ -11,7 +12,11 @@ use crate::{Class, Classing, Error, Policy, PolicyFn, TreeStats};
 use crate::{TREE_FRAMES, TreeId};
 
 pub struct Locals<'a> {
-    buffer: &'a mut [u8],
+    /// Caller provided buffer holding the locals.
+    /// Kept as raw pointer, because the locals are shared and modified atomically.
+    buffer: *mut u8,
+    buffer_len: usize,
+    _p: PhantomData<&'a mut [u8]>,
     /// Local reservations for each class
     classes: [Option<OffsetSlice<Local>>; 1 << Class::BITS],
 }
@@ -21,7 +26,7 @@ impl fmt::Debug for Locals<'_> {
         let mut f = f.debug_map();
         for (i, locals) in self.classes.iter().enumerate() {
             if let Some(locals) = locals {
-                f.entry(&Class(i as u8), &locals.as_slice(self.buffer));
+                f.entry(&Class(i as u8), &self.slice(locals));
             }
         }
         f.finish()
@@ -34,7 +39,7 @@ impl<'a> Locals<'a> {
     }
     pub unsafe fn metadata(&mut self) -> &'a mut [u8] {
         // Lifetime hack: internal buffer outlives instance!
-        unsafe { slice::from_raw_parts_mut(self.buffer.as_mut_ptr(), self.buffer.len()) }
+        unsafe { slice::from_raw_parts_mut(self.buffer, self.buffer_len) }
     }
 
     /// Initialize the locals from a buffer
@@ -52,7 +57,12 @@ impl<'a> Locals<'a> {
             offset += size_of_slice::<Local>(count);
             classes[class.0 as usize] = Some(local);
         }
-        Ok(Self { buffer, classes })
+        Ok(Self {
+            buffer: buffer.as_mut_ptr(),
+            buffer_len: buffer.len(),
+            _p: PhantomData,
+            classes,
+        })
     }
 
     /// Get the number of locals for a class, or None if the class is not configured
@@ -191,7 +201,7 @@ impl<'a> Locals<'a> {
     pub fn drain(&self, unreserve: impl Fn(RowId, Class, usize)) {
         for (i, locals) in self.classes.iter().enumerate() {
             if let Some(locals) = locals {
-                let locals = locals.as_slice(self.buffer);
+                let locals = self.slice(locals);
                 let class = Class(i as u8);
                 for local in locals {
                     let old = local.tree.swap(LocalTree::none());
@@ -215,7 +225,7 @@ impl<'a> Locals<'a> {
         let mut s = TreeStats::default();
         for (i, locals) in self.classes.iter().enumerate() {
             if let Some(locals) = locals {
-                let locals = locals.as_slice(self.buffer);
+                let locals = self.slice(locals);
                 let class = Class(i as u8);
                 for local in locals {
                     let tree = local.tree.load();
@@ -241,7 +251,12 @@ impl<'a> Locals<'a> {
     fn locals(&'a self, class: Class) -> Option<&'a [Local]> {
         self.classes[class.0 as usize]
             .as_ref()
-            .map(|locals| locals.as_slice(self.buffer))
+            .map(|locals| self.slice(locals))
+    }
+
+    fn slice(&self, locals: &OffsetSlice<Local>) -> &'a [Local] {
+        // Safety: the buffer outlives `'a` and was checked in `new`
+        unsafe { locals.as_slice_raw(self.buffer, self.buffer_len) }
     }
 }
 
